@@ -317,6 +317,9 @@ where
             Err(m) => ctx.violation(Violation::new("C04:panic", format!("NUTSChain::run panicked in history {:?}: {m}", c.runs), case)),
             Ok(obs) => {
                 check_history(ctx, &rt, &obs, c.delta, f32s, &case, tname, worst);
+                if c.runs.len() >= 2 {
+                    ctx.sample_tagged("run history", || json!({"input": case.clone(), "per_run": obs.iter().map(|o| json!({"eps_at_start": o.init[0], "mu": o.init[1], "m_at_start": o.init[2], "adapt_state_after_each_transition(m,eps,eps_bar,h_bar)": o.trans.iter().take(4).map(|t| jfs(&t.3[..4])).collect::<Vec<_>>()})).collect::<Vec<_>>()}));
+                }
                 ctx.traces(1);
                 ctx.distinct(hash_str(&case.to_string()));
             }
@@ -372,7 +375,6 @@ pub fn run(ctx: &Ctx) {
     histories::<f32, BF32>(ctx, "f32 / NdArray<f32>", true, &worst);
     acceptance_grid(ctx);
     ctx.extra("worst_error_over_tolerance", json!(worst.lock().unwrap().0));
-    ctx.sample(json!({"history": {"target": "Rosenbrock2D", "delta": 0.8, "seed": 2, "runs": [[2, 5], [1, 12], [3, 2]], "checked_after_every_transition": ["H-bar", "eps (warm-up: exp(mu - sqrt(m)/gamma H-bar); after: == eps_bar)", "eps_bar", "counter", "step size used by the trajectory"]}}));
     ctx.assume("the clause 'realised acceptance close to requested' is statistical: checked on a fixed, fully enumerated grid with a wide band only (not exhaustive, not generalising)");
     ctx.assume("the statement does not say what the shrinkage point is when a later run resumes adaptation: mu = ln(10 eps0) is demanded for the first run only, constancy of mu within every run");
     if ctx.outcome_count("warm-up transitions checked") == 0 || ctx.outcome_count("post-warm-up transitions checked") == 0 {
